@@ -186,6 +186,10 @@ def broker_oracle(op, impl, spec):
     if ei != es:
         return False
     for g in set(gi) | set(gs):
+        if '?' in gs.get(g, []):
+            # the specification leaves this connection's own group open on this line (a client that
+            # sent a packet it has no business sending): everybody else is still checked
+            continue
         if not match_group(gi.get(g, []), gs.get(g, []), g.startswith('cb')):
             return False
     return True
@@ -275,3 +279,21 @@ mk('C08', 'Mqtt.Properties.C08', [Run('broker-ret', quick=12000, thorough=80000,
 mk('C09', 'Mqtt.Properties.C09', [Run('broker-will', quick=12000, thorough=80000, seeds_thorough=8)])
 mk('C10', 'Mqtt.Properties.C10', [Run('broker-sess', quick=12000, thorough=80000, seeds_thorough=8)])
 mk('C11', 'Mqtt.Properties.C11', [Run('broker-first', quick=12000, thorough=80000, seeds_thorough=8)])
+
+
+# C05: the same broker oracle on byte-level events (`rawfirst`, `raw`).  The bytes are framed and
+# decoded by Model/Framing + Model/Codec in the driver (both streams); a broker process that dies
+# ends the implementation stream early (= violation with replay).
+C05_ASSUMPTIONS = BROKER_ASSUMPTIONS + [
+    "byte streams become events through Model/Framing (getMessageBuffer, peekMessageSize/peekMessage) and Model/Codec; the reference broker receives the same events (what the decoders accept is C03/C04's subject)",
+    "what a connection receives on the line on which it is closed is not observed (socket closed before the sender goroutine flushes), except the CONNACK answering its first packet; what a mid-packet connection receives is reported when it is at a packet boundary again",
+    "real panics, out-of-memory and goroutine death are runtime events: the model has them only as explicit outcomes of the steps it contains (decoders, framing); logging, TLS and the websocket bridge are outside",
+    "the implementation runs with GOMEMLIMIT and an address-space limit (lib/vcheck/corr.py): an input that makes the broker allocate gigabytes kills the process and is reported as a crash",
+]
+register(Prop('C05', 'Mqtt.Properties.C05', ['broker'],
+              runs=[Run('broker-iso', quick=9000, thorough=60000, seeds_thorough=8),
+                    Run('broker-iso-sweep', quick=2500, thorough=30000, seeds_thorough=2)],
+              oracle=broker_oracle, nontrivial=broker_nontrivial, spec_total=False,
+              classes={'empty_level': has_empty_level, 'dollar_level': has_dollar_level, 'cb_retain_forward': cb_retain_forward},
+              assumptions=C05_ASSUMPTIONS, trusted=COMMON_TRUSTED + [
+                  "regenerated facts: framing limits (l > 4, cnt from 2 to 5), ring size, deferred recover in handleConnection/processor, non-fatal processIncoming errors do not end the processor, packet-type and codec tables"]))
